@@ -658,6 +658,14 @@ impl Scenario for Death {
         for bound in [1usize, 16] {
             v.push(json!({"fault": "serverclose-eof", "bound": bound}));
         }
+        // ... hangs up in a way that shows as a reset on the client's reads and / or a broken
+        // pipe on its writes (the client was still sending when the server closed the socket)
+        for hangup in ["reset", "pipe", "reset+pipe"] {
+            v.push(json!({"fault": "serverclose-eof", "bound": 16, "hangup": hangup}));
+        }
+        // ... says why it closes and then neither reads nor talks any more: the CloseOk cannot be
+        // written, and the heartbeat timeout ends the wait
+        v.push(json!({"fault": "serverclose", "bound": 16, "dead_peer": true}));
         // the same ends reached through drop instead of close
         for fault in ["silence", "serverclose", "clientexception", "none"] {
             v.push(json!({"fault": fault, "bound": 16, "drop": true}));
@@ -734,6 +742,12 @@ impl Scenario for Death {
         if dead_peer {
             cfg.no_grants = true;
         }
+        cfg.hangup = match p["hangup"].as_str() {
+            Some("reset") => "reset",
+            Some("pipe") => "pipe",
+            Some("reset+pipe") => "reset+pipe",
+            _ => "eof",
+        };
         let backlog = p["backlog"] == true;
         Built { broker: Box::new(broker), cfg, root: Box::new(move |ctx: Ctx| death_session(ctx, bound, drain, drop_instead, unwind, dead_peer, backlog)) }
     }
